@@ -2,6 +2,10 @@ package rules
 
 import (
 	"fmt"
+	"go/token"
+	"go/types"
+	"sort"
+	"strings"
 
 	"golang.org/x/tools/go/ssa"
 
@@ -18,6 +22,7 @@ func init() {
 			"through one of these), InterceptedTrieNode.hash is the getHash() of that same node, and setGivenHash (which trusts its argument) is called only with the very DB key the node was just " +
 			"loaded under (callers are enumerated; the interface method is unexported so the package is the universe). (S2) The syncers persist nodes only through encodeNodeAndCommitToDB, i.e. under the " +
 			"content hash (C03/S2): no other function of the package calls Put on a trie DB. A node keyed by the *requested* hash instead of its content hash would let a peer substitute arbitrary subtrees. " +
+			"(S3, completeness, structural part) every success exit of trieSyncer.StartSyncing and doubleListTrieSyncer.StartSyncing is decided by the bool result of the completion test called in the sync loop, or by the requested root hash alone (empty trie); the double-list completion test reads both work sets; branchNode/extensionNode.loadChildren report every non-empty child reference as missing or loaded (the syncers learn the frontier only from it). " +
 			"Not decided (schedules/value-level): completeness of the frontier under every delivery schedule, termination.",
 		Run: runC05,
 	})
@@ -214,4 +219,219 @@ func runC05(c *core.Ctx) {
 	}
 	c.Floor("C05/persist-only-under-content-hash", 3)
 	c.Floor("C05/received-node-hash-is-content-hash", 5)
+	c05Completion(c)
+	c05ChildrenReported(c)
+}
+
+// c05Completion: "completes without error => every reachable node is stored" needs every success
+// exit of StartSyncing to be decided by the completion test of the sync loop; the only other
+// success exit allowed is the one decided by the requested root hash alone (empty trie).
+func c05Completion(c *core.Ctx) {
+	const pkg = "data/trie"
+	for _, typ := range []string{"trieSyncer", "doubleListTrieSyncer"} {
+		fn := anchorM(c, pkg, typ, "StartSyncing")
+		if fn == nil {
+			continue
+		}
+		c.Analysed(fname(fn))
+		// completion calls: receiver methods called inside a loop, returning (..bool.., error)
+		completion := map[*ssa.Call]bool{}
+		core.Instrs(fn, func(in ssa.Instruction) {
+			call, ok := in.(*ssa.Call)
+			if !ok || core.InnermostLoop(fn, call.Block()) == nil {
+				return
+			}
+			callee := call.Call.StaticCallee()
+			if callee == nil || callee.Signature.Recv() == nil || len(call.Call.Args) == 0 || core.ExprKey(call.Call.Args[0]) != "recv" {
+				return
+			}
+			res := callee.Signature.Results()
+			hasBool, hasErr := false, false
+			for i := 0; i < res.Len(); i++ {
+				if b, ok := res.At(i).Type().Underlying().(*types.Basic); ok && b.Kind() == types.Bool {
+					hasBool = true
+				}
+				if res.At(i).Type().String() == "error" {
+					hasErr = true
+				}
+			}
+			if hasBool && hasErr {
+				completion[call] = true
+			}
+		})
+		n := 0
+		for i, r := range core.Returns(fn) {
+			if !core.SuccessReturn(r, nil) {
+				continue
+			}
+			n++
+			name := fmt.Sprintf("%s.StartSyncing/success#%d", typ, n)
+			_ = i
+			conds := core.CondsAt(r.Block())
+			if len(conds) == 0 {
+				// `a || b` lowers to several edges into the block: take what each edge establishes
+				for _, p := range r.Block().Preds {
+					conds = append(conds, core.CondsOnEdgeTo(p, r.Block())...)
+				}
+			}
+			byCompletion := false
+			onlyRoot := len(conds) > 0
+			impureSet := map[string]bool{}
+			for _, cd := range conds {
+				for v := range core.BackwardReachPure(cd.V) {
+					if ex, ok := v.(*ssa.Extract); ok {
+						if call, ok := ex.Tuple.(*ssa.Call); ok && completion[call] {
+							if b, isB := ex.Type().Underlying().(*types.Basic); isB && b.Kind() == types.Bool {
+								byCompletion = true
+							}
+						}
+					}
+					switch x := v.(type) {
+					case *ssa.Call:
+						d := core.CallDesc(&x.Call)
+						if !(d.Is("builtin", "", "len") || d.Is("bytes", "", "Equal")) {
+							onlyRoot = false
+							impureSet[d.Name+"()"] = true
+						}
+					case *ssa.UnOp:
+						if x.Op == token.MUL {
+							if _, isG := x.X.(*ssa.Global); !isG {
+								onlyRoot = false
+								impureSet[core.ExprKey(x)] = true
+							}
+						}
+					case *ssa.Parameter:
+						if x != fn.Params[1] {
+							onlyRoot = false
+							impureSet[x.Name()] = true
+						}
+					}
+				}
+			}
+			var impureL []string
+			for k := range impureSet {
+				impureL = append(impureL, k)
+			}
+			sort.Strings(impureL)
+			impure := strings.Join(impureL, ", ")
+			switch {
+			case byCompletion:
+				c.Pass("C05/success-decided-by-completion-test", name, r.Pos(), "returned only when the completion test of the sync loop said so")
+			case onlyRoot:
+				c.Pass("C05/success-decided-by-completion-test", name, r.Pos(), "decided by the requested root hash alone (empty trie)")
+			default:
+				c.Fail("C05/success-decided-by-completion-test", name, r.Pos(),
+					"StartSyncing reports success on a path that neither passed the completion test of the sync loop nor is decided by the root hash alone (depends on "+impure+"): storage may lack reachable nodes (e.g. only the root of an interrupted sync is present)")
+			}
+		}
+	}
+	c.Floor("C05/success-decided-by-completion-test", 4)
+	// the double-list completion test looks at both work sets
+	if fn := anchorM(c, pkg, "doubleListTrieSyncer", "checkIsSyncedWhileProcessingMissingAndExisting"); fn != nil {
+		c.Analysed(fname(fn))
+		n := 0
+		for _, r := range core.Returns(fn) {
+			v := core.RetOperand(r, 0)
+			if v == nil {
+				continue
+			}
+			if b, isC := core.ConstBool(v); isC && !b {
+				continue
+			}
+			n++
+			miss, exist := false, false
+			for x := range core.BackwardReachPure(v) {
+				if isFieldOf(x, "missingHashes") {
+					miss = true
+				}
+				if isFieldOf(x, "existingNodes") {
+					exist = true
+				}
+			}
+			c.Check(miss && exist, "C05/completion-test-covers-both-work-sets", fmt.Sprintf("checkIsSynced/true-return#%d", n), r.Pos(),
+				"`synced` is computed from both missingHashes and existingNodes",
+				"`synced` can be reported without looking at both missingHashes and existingNodes: nodes still waiting to be processed or requested are forgotten")
+		}
+		c.Floor("C05/completion-test-covers-both-work-sets", 1)
+	}
+}
+
+// c05ChildrenReported: loadChildren is how the syncers learn the frontier: every non-empty child
+// reference must come back either as a missing hash or as a loaded node.
+func c05ChildrenReported(c *core.Ctx) {
+	const pkg = "data/trie"
+	if fn := anchorM(c, pkg, "branchNode", "loadChildren"); fn != nil {
+		c.Analysed(fname(fn))
+		found := false
+		for _, l := range core.Loops(fn) {
+			src := l.RangeSource()
+			if src == nil || !isFieldOf(src, "EncodedChildren") {
+				continue
+			}
+			found = true
+			l := l
+			appendIn := func(in ssa.Instruction) bool {
+				call, ok := in.(*ssa.Call)
+				if !ok || !l.Body[in.Block()] {
+					return false
+				}
+				bi, ok := call.Call.Value.(*ssa.Builtin)
+				return ok && bi.Name() == "append"
+			}
+			emptyEdge := edgeFact(func(f core.Fact, cd core.Cond) bool {
+				for _, side := range []string{f.A, f.B} {
+					if strings.HasPrefix(side, "len(") && strings.Contains(side, "EncodedChildren[") {
+						if ub, ok := f.UpperBound(side); ok && ub <= 0 {
+							return true
+						}
+					}
+				}
+				return false
+			})
+			var from *ssa.BasicBlock
+			for _, s := range l.Header.Succs {
+				if l.Body[s] {
+					from = s
+				}
+			}
+			esc, path := core.PathQ{Fn: fn, FromBlk: from, Via: appendIn, ViaEdge: emptyEdge,
+				Target: func(in ssa.Instruction, _ *ssa.BasicBlock) bool {
+					if in == l.Header.Instrs[0] {
+						return true // the next iteration
+					}
+					_, isRet := in.(*ssa.Return)
+					return isRet && !l.Body[in.Block()] && core.SuccessReturn(in, nil)
+				}}.Escape()
+			c.Check(esc == nil, "C05/every-child-reported", "branchNode.loadChildren", fn.Pos(),
+				"every iteration over a non-empty child reference appends to the missing or to the loaded list",
+				"an iteration over a non-empty child reference ends without reporting the child as missing or loaded ("+c.P.PathString(path)+"): a syncer that discards one result of loadChildren never walks that subtree")
+		}
+		if !found {
+			c.Undecided("C05/every-child-reported", "branchNode.loadChildren", fn.Pos(), "no loop over EncodedChildren found")
+		}
+	}
+	if fn := anchorM(c, pkg, "extensionNode", "loadChildren"); fn != nil {
+		c.Analysed(fname(fn))
+		n := 0
+		for _, r := range core.Returns(fn) {
+			if !core.SuccessReturn(r, nil) {
+				continue
+			}
+			n++
+			reported := false
+			for _, k := range []int{0, 1} {
+				v := core.RetOperand(r, k)
+				if v == nil {
+					continue
+				}
+				if cst, isC := v.(*ssa.Const); isC && cst.IsNil() {
+					continue
+				}
+				reported = true
+			}
+			c.Check(reported, "C05/every-child-reported", fmt.Sprintf("extensionNode.loadChildren/success#%d", n), r.Pos(),
+				"the child is returned as missing or as loaded", "a success return reports the child neither as missing nor as loaded")
+		}
+	}
+	c.Floor("C05/every-child-reported", 3)
 }
